@@ -20,7 +20,7 @@ from datetime import datetime, timezone
 from time import time as stdlib_time
 from typing import Any, Generic, TypeVar
 from warnings import warn
-from weakref import ReferenceType, WeakKeyDictionary
+from weakref import ReferenceType
 
 from anyio import BrokenResourceError, WouldBlock, create_memory_object_stream
 from anyio.streams.memory import MemoryObjectSendStream
@@ -29,7 +29,8 @@ from ._exceptions import UnboundSignal
 from ._utils import qualified_name
 
 T_Event = TypeVar("T_Event", bound="Event")
-bound_signals = WeakKeyDictionary[Hashable, "dict[int, Signal[Any]]"]()
+# Bound signals, keyed by the identities of the owner instance and the signal declaration
+bound_signals: dict[tuple[int, int], Signal[Any]] = {}
 
 
 class SignalQueueFull(UserWarning):
@@ -96,15 +97,20 @@ class Signal(Generic[T_Event]):
         if instance is None:
             return self
 
-        # Each signal declared on the class gets its own bound signal per instance
+        # Each signal declared on the class gets its own bound signal per instance.
+        # Instances are told apart by identity, as instances that compare equal are still
+        # separate event sources.
+        key = (id(instance), id(self))
         try:
-            return bound_signals[instance][id(self)]
+            return bound_signals[key]
         except KeyError:
             bound_signal = Signal(self.event_class)
             bound_signal._topic = self._topic
-            bound_signal._instance = weakref.ref(instance)
+            bound_signal._instance = weakref.ref(
+                instance, lambda _: bound_signals.pop(key, None)
+            )
             bound_signal._send_streams = []
-            bound_signals.setdefault(instance, {})[id(self)] = bound_signal
+            bound_signals[key] = bound_signal
             return bound_signal
 
     def __set_name__(self, owner: Any, name: str) -> None:
